@@ -252,7 +252,7 @@ def _gen_call(rng, prog, d, vars_, nested=False, prefix='v'):
     for i in range(n - nkw, n):
         kwargs['p%d' % i] = args[i]
     args = args[:n - nkw]
-    if rng.random() < 0.15 and not nested:
+    if rng.random() < 0.15 and not nested and not d['kind'].startswith('property'):
         kwargs['extra'] = _gen_arg(rng, vars_)
     step = {'op': d['io'], 'decl': d['name'], 'args': args, 'kwargs': kwargs}
     if not nested:
@@ -404,6 +404,8 @@ class Built(object):
         self.cls = self._build_class(cls_name or 'GenOp%d' % prog['uid'])
         self.vars = {}
         self.fault_log = []
+        self.trace = []
+        self._tl = threading.local()
 
     # ---- fault plumbing -------------------------------------------------------------------------
     def arm(self, kind):
@@ -536,7 +538,9 @@ class Built(object):
         def body(*args, **kwargs):
             a = args if static else args[1:]
             j = built.journal
-            ev = j.add({'ev': 'body', 'decl': d['name'], 'args': a, 'kwargs': dict(kwargs)})
+            stack = getattr(built._tl, 'stack', None) or [None]
+            ev = j.add({'ev': 'body', 'decl': d['name'], 'args': a, 'kwargs': dict(kwargs),
+                        'call_n': stack[-1]['n'] if stack[-1] is not None else None})
             if built.consume('body_discard') and built.recorder is not None:
                 built.recorder.discard_recording()
             if built.consume('body_force') and built.recorder is not None:
@@ -675,6 +679,8 @@ class Built(object):
     def _exec_step(self, s, nested=False):
         pos = self._next_step()
         fault = None if nested else self.faults.get(pos)
+        if not nested:
+            self.trace.append((pos, s['op'], s.get('decl')))
         rec = self.recorder
         if fault == 'raise_user':
             self.fault_log.append((pos, fault))
@@ -764,6 +770,15 @@ class Built(object):
     def _call(self, d, args, kwargs, nested):
         j = self.journal
         ev = j.add({'ev': 'call', 'io': d['io'], 'decl': d['name'], 'args': list(args), 'kwargs': dict(kwargs), 'nested': nested})
+        if not hasattr(self._tl, 'stack'):
+            self._tl.stack = [None]
+        self._tl.stack.append(ev)
+        try:
+            return self._call2(d, args, kwargs, ev)
+        finally:
+            self._tl.stack.pop()
+
+    def _call2(self, d, args, kwargs, ev):
         try:
             if d['kind'].startswith('property'):
                 v = getattr(self.inst, d['name'])
